@@ -142,6 +142,7 @@ func runC15(c *Ctx) {
 		ruleAppendFromOwnLength(c, p, "C15.append-from-len")
 		ruleReadSizeUncapped(c, p, "C15.readsize")
 		c.R.Rule("C15.append", "E4 (see C01.append) in every configuration: both variants leave bytes already in the buffer alone")
+		ruleContentBlindCodecs(c, p, "C15.content-blind")
 		n := runBufDisc(c, p, "C15.append")
 		c.R.Floor("C15.append", p.Cfg.Name, n, 90)
 		ruleEndian(c, p, "C15.endian")
